@@ -13,7 +13,15 @@ RULE = ("wasmgen bound: (T) every well-typed instruction tree of depth<=2 over M
         "thorough: also both operands inner], (K) every control skeleton of nesting<=2 (quick: <=1 with all block types plus <=2 with void/i32 block types) over "
         "block/loop/if/if-else/br/br_if/br_table/return/call/call_indirect/unreachable with block types none/i32/f64, (S) module structure: "
         "imports x memory x data x table/elem x globals x start x locals x exports (quick: all single and pairwise deviations from a base; "
-        "thorough: also triples); functions are packed 6 (quick) / 8 (thorough) per module; each module in binary + 3 text styles; distinct non-trivial = distinct canonical binary image")
+        "thorough: also triples); functions are packed 6 (quick) / 8 (thorough) per module; each module in binary + 3 text styles; second generation: (U) custom sections: "
+        "one custom section at each of the 13 positions between the standard sections x 6 name/payload entries (name-section look-alike, empty payload, "
+        "arbitrary bytes, empty name, multi-byte UTF-8 name, producers) on a module with every standard section, 2 entries on a one-function and an empty "
+        "module; two custom sections at every ordered pair of positions (169) x 2 (thorough 4) entry pairs; data-count section with "
+        "0/1/2/63/64/127/128 data segments alone and next to custom sections, and on the full module; (F) the input forms of ppci.wasm.Module: "
+        "SExpression, one tuple of nested definition tuples, definitions as separate arguments, tuple of definition strings, for the 3 text styles of "
+        "every depth-1 tree/constant module, nesting<=1 skeleton module and single structure deviation; (E) opcodes.eval_expr on every constant of the "
+        "LEB/float boundary alphabets as global initialiser read from text and from binary, and on global.get of an imported global; "
+        "distinct non-trivial = distinct canonical binary image")
 ASSUMPTIONS = [
     "reference binary: own encoder in vf/gen/wasmgen.py; every reference binary is validated (compiled) by V8 before it is used",
     "reference engine: node v20 / V8 (no wabt or wasmtime in the sandbox); 'behaves like' = same results/traps on V3 argument vectors, same "
@@ -21,9 +29,19 @@ ASSUMPTIONS = [
     "the WAT renderer is own code following the spec grammar (flat, folded, inline-abbreviation styles); no independent WAT parser is available, "
     "so text that ppci rejects is reported with the text for human inspection",
     "a NotImplementedError from ppci is counted as unsupported (unclassified), every other exception on a generated module is a violation",
+    "custom and data-count sections have no text syntax: for them only binary->Module->binary is required to be the identity (position, order, name and "
+    "payload of every custom section); the text form is required to keep the standard sections, and a to_string() that refuses a custom section with "
+    "NotImplementedError is counted as unsupported",
+    "input forms: the nested tuples are made by an own reader from the own WAT (string literals become plain str, decimal integers int, everything else "
+    "str) and must give the same to_bytes() as Module(text); Module(<one definition tuple>) is not enumerated (a single tuple argument is by "
+    "construction the tuple of definitions); RuntimeError 'Cannot evaluate' of eval_expr counts as an explicit unsupported diagnostic",
+    "bulk-memory / reference-type instructions, passive segments and multi-value block types are not part of this check's bound (C22 feeds them as "
+    "text); ppci's binary writer rejects them with TypeError/KeyError, its binary reader with NotImplementedError",
 ]
 CLAIM = {"text": "binary->Module->binary is the identity on canonical binaries, text->Module->text->Module preserves the binary, and ppci's "
-                 "binary for a text module is V8-valid and V8-indistinguishable from the reference binary, for every module in the bound",
+                 "binary for a text module is V8-valid and V8-indistinguishable from the reference binary, for every module in the bound; custom and "
+                 "data-count sections survive binary->Module->binary unchanged and in place; tuple / s-expression input gives the module the text gives; "
+                 "eval_expr returns the typed constant",
          "note": "trusted: own encoder (V8-validated per module), own WAT renderer, V8", "technique": "bounded exhaustive module enumeration, differential vs own encoder + V8",
          "engine": "K1 wasmgen + node adapter"}
 
@@ -44,6 +62,11 @@ def work_items(tier, seed, skip_struct=0):
     n = W.count(struct_configs(tier))
     step = 40
     items += [("struct", i, min(n, i + step)) for i in range(skip_struct, n, step)]
+    nc = len(custom_cases(tier))
+    items += [("custom", i, i + 60) for i in range(0, nc, 60)]
+    nf = W.count(form_modules(tier))
+    items += [("forms", i, i + 12) for i in range(0, nf, 12)]
+    items += [("eval",)]
     return items
 
 
@@ -336,6 +359,351 @@ def first_difference(ref, got):
     return "none", None
 
 
+
+# ---------------------------------------------------------------- second-generation families: custom / data-count sections (U),
+# ---------------------------------------------------------------- tuple and s-expression input forms (F), constant expressions (E)
+
+NAME_SECTION = bytes([1, 6, 1, 0, 3]) + b"add" + bytes([0, 4, 3]) + b"mod"        # function-names subsection, then module-name subsection
+CUSTOM_ALPHABET = [("name", NAME_SECTION), ("name", b""), ("x", bytes([0, 255, 128, 11, 0])), ("", b"\x01"), ("süß.中", b"abc"),
+                   ("producers", bytes([1, 8]) + b"language" + bytes([1, 1]) + b"C" + bytes([0]))]
+DATACOUNT_NS = (0, 1, 2, 63, 64, 127, 128)
+
+
+def custom_bases():
+    """name -> module AST: every standard section present / one function only / no section at all."""
+    from vf.gen import wasmgen as W
+    full = W.structure_module({"imports": ("func", "gi"), "mem": "1-2", "data": "two", "table": "2-2@1", "globals": "i32m", "start": "start",
+                               "locals": "i32", "exports": "all"})
+    one = W.module_of_funcs([(W.FT((W.I32,), (W.I32,)), (), [W.Ins("i32.add", None, [W.lget(0), W.i32c(1)])])])
+    return {"full": full, "one-func": one, "empty": W.Module()}
+
+
+def custom_cases(tier):
+    """[(wit, module)]: 1 custom section at every slot x every alphabet entry; 2 custom sections at every ordered pair of slots (two different
+    entries, and the same entry twice); data-count section with 0/1/2/63/64/127/128 data segments, with and without custom sections around it."""
+    from vf.gen import wasmgen as W
+    import copy
+    out = []
+    bases = custom_bases()
+
+    def mk(base, customs, datacount=None, nseg=None):
+        m = copy.copy(bases[base])
+        m.customs = list(customs)
+        m.datacount = datacount
+        if nseg is not None:
+            m = W.module_of_funcs([(W.FT((), ()), (), [])], {"mem": (1, None), "datas": [(i, bytes([i % 251])) for i in range(nseg)], "datacount": datacount})
+            m.customs = list(customs)
+        wit = {"gen": "custom", "base": base, "customs": [[sl, i] for sl, i in customs_idx], "datacount": datacount, "nseg": nseg}
+        return wit, m
+
+    slots = range(W.N_SLOTS)
+    for base in ("full", "one-func", "empty"):
+        for sl in slots:
+            for ci in range(len(CUSTOM_ALPHABET)):
+                if base != "full" and ci not in (0, 2):
+                    continue
+                customs_idx = [(sl, ci)]
+                out.append(mk(base, [(sl,) + CUSTOM_ALPHABET[ci]]))
+    for a in slots:
+        for b in slots:
+            for pair in ((2, 0), (4, 4)) if tier == "quick" else ((2, 0), (4, 4), (0, 5), (3, 1)):
+                customs_idx = [(a, pair[0]), (b, pair[1])]
+                out.append(mk("full", [(a,) + CUSTOM_ALPHABET[pair[0]], (b,) + CUSTOM_ALPHABET[pair[1]]]))
+    for n in DATACOUNT_NS:
+        for cust in ((), ((9, 2),), ((10, 2),), ((9, 2), (10, 0))):
+            customs_idx = list(cust)
+            out.append(mk("one-func", [(sl,) + CUSTOM_ALPHABET[ci] for sl, ci in cust], True, n))
+    customs_idx = []
+    out.append(mk("full", [], True))
+    return out
+
+
+def rebuild_custom(wit):
+    for w, m in custom_cases("thorough"):
+        if w == {k: wit.get(k) for k in w}:
+            return w, m
+    return None
+
+
+def split_custom(b):
+    """(standard sections [(id, payload)], custom sections [payload], positions of the custom sections among the standard ones)"""
+    std, cus, pos = [], [], []
+    for sid, pl in sections(b):
+        if sid == 0:
+            cus.append(pl)
+            pos.append(len(std))
+        else:
+            std.append((sid, pl))
+    return std, cus, pos
+
+
+def check_custom(p, wit, m, pending):
+    """binary -> Module -> binary for modules with custom / data-count sections.  Text has no syntax for them: the text form is only
+    required to keep the standard sections (Module(Module(bin).to_string()).to_bytes() == binary without custom and data-count sections)."""
+    from vf.core import exc_key, cpu_limit, CpuTimeout
+    from vf.gen import wasmgen as W
+    from ppci.wasm import Module
+    import copy
+    ref = W.encode(m)
+    p.outcome(ref)
+    pending.append({"wit": wit, "m": m, "ref": ref, "calls": [], "variants": [], "extra_refs": {}})
+    what_mod = "base=%s customs=%s datacount=%s nseg=%s" % (wit["base"], [(sl, CUSTOM_ALPHABET[i][0]) for sl, i in wit["customs"]], wit["datacount"], wit["nseg"])
+
+    def fail(key, what, exc=None):
+        w = dict(wit)
+        w["oracle"] = key.split("/")[0]
+        p.violation(exc_key(key, exc) if exc is not None else key, what + "; " + what_mod + "; bin=" + ref.hex()[:400], w, order=p.evaluations + ORDER_BASE)
+
+    p.add()
+    mb = None
+    feature = "section:datacount" if wit["datacount"] else "section:custom"
+    try:
+        with cpu_limit(20):
+            mb = Module(ref)
+            out = mb.to_bytes()
+        if out != ref:
+            s_ref, c_ref, pos_ref = split_custom(ref)
+            s_out, c_out, pos_out = split_custom(out)
+            if s_ref != s_out:
+                ids = lambda ss: [SECTION_NAMES.get(i, i) for i, _ in ss]
+                if sorted(s_ref) == sorted(s_out):
+                    fail("bin-roundtrip/section-order/datacount", "Module(bin).to_bytes() writes the standard sections in the order %s, the binary has %s (the "
+                         "data-count section belongs between the element and the code section; V8 rejects it elsewhere)" % (ids(s_out), ids(s_ref)))
+                else:
+                    sec, _ = first_difference(ref, out)
+                    bad = next((SECTION_NAMES.get(a[0], a[0]) for a, b in zip(s_ref, s_out) if a != b), "count")
+                    fail("bin-roundtrip/section:%s" % bad, "Module(bin).to_bytes() changes standard section %s; got=%s" % (bad, out.hex()[:400]))
+            if sorted(c_ref) != sorted(c_out):
+                fail("bin-roundtrip/custom-section/content", "Module(bin).to_bytes() changes or loses custom sections: %d in, %d out; got=%s" %
+                     (len(c_ref), len(c_out), out.hex()[:400]))
+            elif c_ref != c_out:
+                fail("bin-roundtrip/custom-section/relative-order", "Module(bin).to_bytes() swaps custom sections")
+            elif pos_ref != pos_out and s_ref == s_out:
+                fail("bin-roundtrip/custom-section/position", "Module(bin).to_bytes() moves custom sections: they follow %s standard sections in the input "
+                     "and %s in the output (a name section must come after the data section)" % (pos_ref, pos_out))
+        else:
+            p.count("custom_roundtrip_identical")
+    except CpuTimeout:
+        fail("bin-roundtrip/hang/" + feature, "Module(bin).to_bytes() exceeded 20 s CPU")
+    except Exception as ex:  # noqa
+        if is_unsupported(ex):
+            p.count("unsupported")
+            p.collect("unsupported", "bin-custom:%s:%s" % (type(ex).__name__, str(ex)[:60]))
+        else:
+            fail("bin-roundtrip/" + feature, "Module(bin) / to_bytes raised %s: %s" % (type(ex).__name__, str(ex)[:120]), exc=ex)
+    if mb is None:
+        return
+    # text: standard sections only
+    p.add()
+    plain = copy.copy(m)
+    plain.customs, plain.datacount = [], None
+    want = W.encode(plain)
+    try:
+        with cpu_limit(20):
+            txt = mb.to_string()
+            back = Module(txt).to_bytes()
+        if back != want:
+            sec, fidx = first_difference(want, back)
+            fail("bin-text-bin/" + feature, "Module(Module(bin).to_string()).to_bytes() differs from the binary without custom/data-count sections "
+                 "(first difference in %s)" % sec)
+    except CpuTimeout:
+        fail("bin-text-bin/hang/" + feature, "to_string / re-parse exceeded 20 s CPU")
+    except Exception as ex:  # noqa
+        if is_unsupported(ex):
+            p.count("unsupported")
+            p.collect("unsupported", "custom-to-text:%s:%s" % (type(ex).__name__, str(ex)[:60]))
+        else:
+            fail("bin-text-bin/" + feature, "printing/re-parsing raised %s: %s" % (type(ex).__name__, str(ex)[:120]), exc=ex)
+
+
+_TOK = re.compile(r'\(|\)|"(?:[^"\\]|\\.)*"|[^\s()"]+')
+_INT = re.compile(r"^[+-]?\d+$")
+
+
+def text_to_tuple(text):
+    """Own reader for the WAT this framework renders (no comments): nested tuples, string literals -> their raw content, decimal integers -> int."""
+    stack = [[]]
+    for tok in _TOK.findall(text):
+        if tok == "(":
+            stack.append([])
+        elif tok == ")":
+            t = tuple(stack.pop())
+            stack[-1].append(t)
+        elif tok.startswith('"'):
+            stack[-1].append(tok[1:-1])
+        elif _INT.match(tok):
+            stack[-1].append(int(tok))
+        else:
+            stack[-1].append(tok)
+    assert len(stack) == 1 and len(stack[0]) == 1
+    return stack[0][0]
+
+
+def tuple_to_text(t):
+    return "(" + " ".join(tuple_to_text(e) if isinstance(e, tuple) else str(e) for e in t) + ")"
+
+
+FORMS = ("sexpr", "tuple", "varargs", "def-strings")
+
+
+def form_modules(tier):
+    """The modules given to ppci.wasm.Module in its alternative input forms: depth-1 trees and constants (6 functions per module), control skeletons
+    of nesting <= 1, the base structure and every single deviation."""
+    from vf.gen import wasmgen as W
+    fs = list(W.tree_functions(tier, ("d1",)))
+    for i in range(0, len(fs), 6):
+        yield tree_module(tier, ("d1",), fs[i:i + 6])
+    sk = sk_functions(1, None)
+    for i in range(0, len(sk), 6):
+        yield sk_module(1, None, sk[i:i + 6])
+    keys = list(W.STRUCT_OPTIONS)
+    base = {k: W.STRUCT_OPTIONS[k][0] for k in keys}
+    yield struct_module(dict(base))
+    for k in keys:
+        for v in W.STRUCT_OPTIONS[k][1:]:
+            c = dict(base)
+            c[k] = v
+            r = struct_module(c)
+            if r is not None:
+                yield r
+
+
+def has_string_literal_needing_typ(t):
+    return False
+
+
+def check_forms(p, wit, m, bad):
+    """Module(<tuples>) / Module(<SExpression>) must equal Module(<text>) for the same text (compared through to_bytes)."""
+    from vf.core import exc_key, cpu_limit, CpuTimeout
+    from vf.gen import wasmgen as W
+    from ppci.wasm import Module
+    from ppci.lang.sexpr import parse_sexpr
+    atoms_all = func_atoms(wit)
+    for style in STYLES:
+        text = W.wat(m, style)
+        try:
+            with cpu_limit(20):
+                want = Module(text).to_bytes()
+        except BaseException:  # noqa   (text-parse failures belong to the families above)
+            p.count("forms_text_not_parsed")
+            continue
+        tup = text_to_tuple(text)
+        defs = tup[1:]
+        assert tup[0] == "module"
+        for form in FORMS:
+            if form == "varargs" and len(defs) < 2:
+                p.count("forms_varargs_needs_two_definitions")      # Module(x) with a single tuple takes x as the tuple of definitions
+                continue
+            p.add()
+            w = dict(wit)
+            w.update(style=style, oracle="input-form", form=form)
+            try:
+                with cpu_limit(20):
+                    if form == "sexpr":
+                        got = Module(parse_sexpr(text))
+                    elif form == "tuple":
+                        got = Module(defs)
+                    elif form == "varargs":
+                        got = Module(*defs)
+                    else:
+                        got = Module(tuple(tuple_to_text_lit(d) for d in defs))
+                    b = got.to_bytes()
+            except CpuTimeout:
+                p.violation("input-form/%s/hang" % form, "Module(%s form) exceeded 20 s CPU" % form, w, order=p.evaluations + ORDER_BASE)
+                continue
+            except Exception as ex:  # noqa
+                if is_unsupported(ex):
+                    p.count("unsupported")
+                    p.collect("unsupported", "form-%s:%s:%s" % (form, type(ex).__name__, str(ex)[:60]))
+                else:
+                    feat = pick_feature(atoms_all, bad.get("input-form", ()))
+                    p.violation(exc_key("input-form/%s/%s" % (form, feat), ex), "Module(<%s form of %s-style text>) raised %s: %s while Module(text) parses; "
+                                "first definition: %r" % (form, style, type(ex).__name__, str(ex)[:120], defs[0] if defs else None), w, order=p.evaluations + ORDER_BASE)
+                    p.collect("failing_atoms:input-form", "|".join(atoms_all))
+                continue
+            if b == want:
+                p.outcome((form, style, want))
+                p.count("forms_equal_to_text")
+            else:
+                sec, fidx = first_difference(want, b)
+                atoms = loc_atoms(wit, m, fidx)
+                p.violation("input-form/%s/differs/%s" % (form, located_feature(m, sec, fidx)), "Module(<%s form of %s-style text>).to_bytes() differs from "
+                            "Module(text).to_bytes() (first difference in %s section%s)" % (form, style, sec, "" if fidx is None else " func %d" % fidx), w,
+                            order=p.evaluations + ORDER_BASE)
+                p.collect("failing_atoms:input-form", "|".join(atoms))
+
+
+def tuple_to_text_lit(t):
+    """Definition tuple -> s-expression string, string literals re-quoted (they are the elements that are str and were literals: after
+    import/export/data keywords)."""
+    head = t[0] if t else None
+    out = []
+    for i, e in enumerate(t):
+        if isinstance(e, tuple):
+            out.append(tuple_to_text_lit(e))
+        elif isinstance(e, str) and ((head in ("import", "export") and i >= 1) or (head == "data" and i >= 1 and not e.startswith("$"))):
+            out.append('"%s"' % e)
+        else:
+            out.append(str(e))
+    return "(" + " ".join(out) + ")"
+
+
+def check_eval(p):
+    """opcodes.eval_expr on the initialiser of a global parsed from text / read from binary: (type, value) of every constant of the alphabets."""
+    import struct
+    from vf.core import exc_key
+    from vf.gen import wasmgen as W
+    from ppci.wasm import Module, components
+    from ppci.wasm.opcodes import eval_expr
+    cases = [(vt, v) for vt, vals in W.const_alphabets("thorough").items() for v in vals]
+    for vt, v in cases:
+        m = W.module_of_funcs([], {"globs": [W.Glob(vt, False, W.const(vt, v))]})
+        for form, src in (("text", W.wat(m, "flat")), ("binary", W.encode(m))):
+            p.add()
+            wit = {"gen": "eval", "vt": vt, "v": v, "form": form, "oracle": "eval-expr"}
+            try:
+                g = [d for d in Module(src) if isinstance(d, components.Global)][0]
+                got = eval_expr(g.init)
+            except Exception as ex:  # noqa
+                if is_unsupported(ex) or (isinstance(ex, RuntimeError) and "Cannot evaluate" in str(ex)):
+                    p.count("unsupported")
+                    p.collect("unsupported", "eval:%s" % str(ex)[:60])
+                else:
+                    p.violation(exc_key("eval-expr/%s.const/%s" % (vt, const_class(vt, v)), ex), "eval_expr(init of %s) raised %s: %s" %
+                                (W.wat(m, "flat").splitlines()[1].strip(), type(ex).__name__, str(ex)[:100]), wit)
+                continue
+            ok = isinstance(got, tuple) and len(got) == 2 and got[0] == vt
+            if ok and vt in ("i32", "i64"):
+                ok = got[1] == v
+            elif ok:
+                try:
+                    bits = struct.unpack("<I" if vt == "f32" else "<Q", struct.pack("<f" if vt == "f32" else "<d", got[1]))[0]
+                except Exception:  # noqa
+                    bits = None
+                isnan = const_class(vt, v).endswith(("nan", "nan-payload", "nan-signalling"))
+                ok = bits == v or (isnan and got[1] != got[1])
+            if ok:
+                p.outcome(("eval", vt, v))
+            else:
+                p.violation("eval-expr/%s.const/%s" % (vt, const_class(vt, v)), "eval_expr(init of a %s global with value bits/int %d, %s form) = %r" %
+                            (vt, v, form, got), wit)
+    # global.get of an imported global: cannot be evaluated without an instance; an explicit diagnostic is accepted
+    m = W.module_of_funcs([], {"imports": [W.Imp("env", "gi", "global", (W.I32, False))], "globs": [W.Glob(W.I32, False, W.Ins("global.get", 0))]})
+    p.add()
+    try:
+        g = [d for d in Module(W.wat(m, "flat")) if isinstance(d, components.Global)][0]
+        got = eval_expr(g.init)
+        p.violation("eval-expr/global.get", "eval_expr((global.get 0)) of an imported global returned %r without knowing its value" % (got,),
+                    {"gen": "eval", "vt": "global.get", "v": 0, "form": "text", "oracle": "eval-expr"})
+    except Exception as ex:  # noqa
+        if is_unsupported(ex) or (isinstance(ex, RuntimeError) and "Cannot evaluate" in str(ex)):
+            p.count("unsupported")
+            p.collect("unsupported", "eval:%s" % str(ex)[:60])
+        else:
+            p.violation(exc_key("eval-expr/global.get", ex), "eval_expr((global.get 0)) raised %s: %s" % (type(ex).__name__, str(ex)[:100]),
+                        {"gen": "eval", "vt": "global.get", "v": 0, "form": "text", "oracle": "eval-expr"})
+
+
 # ---------------------------------------------------------------- the per-module check
 
 def is_unsupported(ex):
@@ -561,6 +929,17 @@ def worker(p, shard, tier, bad):
     ORDER_BASE = 10 ** 6
     pending = []
     for item in shard:
+        if item[0] == "custom":
+            for wit, m in custom_cases(tier)[item[1]:item[2]]:
+                check_custom(p, wit, m, pending)
+            continue
+        if item[0] == "forms":
+            for wit, m, calls in list(form_modules(tier))[item[1]:item[2]]:
+                check_forms(p, wit, m, bad)
+            continue
+        if item[0] == "eval":
+            check_eval(p)
+            continue
         for wit, m, calls in modules_of(item, tier):
             check_module(p, wit, m, calls, bad, pending)
             if len(pending) >= 300:
@@ -632,6 +1011,25 @@ def replay(w):
     from vf.core import Partial, use_repo
     use_repo()
     p = Partial()
+    if w.get("gen") == "custom":
+        r = rebuild_custom({k: v for k, v in w.items() if k != "oracle"})
+        if r is None:
+            return False, "no such custom-section case"
+        pending = []
+        check_custom(p, r[0], r[1], pending)
+        judge(p, pending, {})
+        hits = sorted(p.violations.items())
+        return (True, "%s :: %s" % (hits[0][0], hits[0][1][1][:600])) if hits else (False, "custom sections survive the binary round trip")
+    if w.get("gen") == "eval":
+        check_eval(p)
+        hits = [(k, v) for k, v in sorted(p.violations.items()) if v[2].get("vt") == w.get("vt") and v[2].get("v") == w.get("v")]
+        return (True, "%s :: %s" % (hits[0][0], hits[0][1][1][:600])) if hits else (False, "eval_expr gives the constant")
+    if w.get("oracle") == "input-form":
+        wit = {k: v for k, v in w.items() if k not in ("style", "oracle", "form")}
+        r = rebuild(wit)
+        check_forms(p, r[0], r[1], {})
+        hits = [(k, v) for k, v in sorted(p.violations.items()) if v[2].get("form") == w.get("form") and v[2].get("style") == w.get("style")]
+        return (True, "%s :: %s" % (hits[0][0], hits[0][1][1][:600])) if hits else (False, "the input form gives the same module as the text")
     wit = {k: v for k, v in w.items() if k not in ("style", "oracle")}
     r = rebuild(wit)
     if r is None:
